@@ -366,6 +366,21 @@ func (v *Verifier) oblige(s *State, class, label string, goal *Term, p token.Pos
 		v.obligeHook(s, goal)
 		return
 	}
+	// an equality of byte strings is proved as equal length and pointwise equal contents
+	if goal.Op == "=" && len(goal.Args) == 2 && (goal.Args[0].Sort == "BStr" || goal.Args[0].Sort == "BStrB") && class != "vacuity" {
+		srt := goal.Args[0].Sort
+		es := SInt
+		if srt == "BStrB" {
+			es = SBV(8)
+		}
+		a, b := goal.Args[0], goal.Args[1]
+		k := v.fresh("ext", SInt)
+		goal = And(Eq(acc(srt+".len", 1, SInt, a), acc(srt+".len", 1, SInt, b)),
+			Eq(Select(acc(srt+".arr", 0, SArr(SInt, es), a), k), Select(acc(srt+".arr", 0, SArr(SInt, es), b), k)))
+		if goal.isTrue() {
+			return
+		}
+	}
 	// an equality of arrays is proved pointwise at a fresh index (extensionality)
 	if goal.Op == "=" && len(goal.Args) == 2 && strings.HasPrefix(goal.Args[0].Sort, "(Array Int ") && class != "vacuity" {
 		k := v.fresh("ext", SInt)
